@@ -335,10 +335,6 @@ def r4_prince_tally(ctx, rule):
     else:
         ctx.unk(rule, PM, 'the way prince_evaluation tallies the section labels is not recognised: ' + what)
 
-def r5_stdout(ctx, rule):
-    return c09.r1_single_stdout_writer(ctx, rule, entry_rel='prince_ling.py')
-
-
 def _loader_bundle():
     from . import c07 as _c07
     return _c07.guesser_loads_faithfully('C17.L')
@@ -400,11 +396,18 @@ def _encoding_verbatim(ctx, rule):
     return c07.r13_recorded_encoding_verbatim(ctx, rule)
 
 
+def _prince_stdout(ctx, rule):
+    # "the same list to a file as to standard output" and "--size N gives the first N": nothing but words reaches stdout from
+    # prince_ling.py (seed C17-o: a warning printed with a bare print() when the ruleset holds fewer words than requested)
+    # a message on a branch that then refuses to run at all ('--size 0') is not part of any list
+    return c09.r1_single_stdout_writer(ctx, rule, entry_rel='prince_ling.py', refusals_allowed=True)
+
+
 def rules(tier):
     return [('C17.R1', r1_size_bound), ('C17.R2', r2_output_swap), ('C17.R3', r3_prince_folder), ('C17.R4', r4_prince_tally),
             ('C17.R6', lambda c, r: c09.r2_pairing(c, r, quals=[PG + '_recursive_guesses'], entries=('prince_ling.py',), floor=4, skip_markov=True)),
             ('C17.R7', c01.r1_heap_order), ('C17.R8', c01.r4_prob_pt_coupling), ('C17.R9', lambda c, r: c02.r1_adoption_kernel(c, r)),
-            ('C17.R10', c04.r2_structural_recursion), ('C17.R11', _mask_insertion), ('C17.R12', c01.r6_loader_order), ('C17.R13', r13_loaded_lists_unfiltered), ('C17.R14', _options_forwarded), ('C17.R15', _encoding_verbatim), ('C17.R16', c01.r9_exact_float_discipline)] + _loader_bundle() + []
+            ('C17.R10', c04.r2_structural_recursion), ('C17.R11', _mask_insertion), ('C17.R12', c01.r6_loader_order), ('C17.R13', r13_loaded_lists_unfiltered), ('C17.R14', _options_forwarded), ('C17.R15', _encoding_verbatim), ('C17.R16', c01.r9_exact_float_discipline), ('C17.R17', _prince_stdout)] + _loader_bundle() + []
 
 
 META = {
